@@ -29,6 +29,8 @@ def parseInt (s : String) : Option Int := s.toInt?
 def primOf : String → Option Ty
   | "u8" => some .u8 | "u16" => some .u16 | "u32" => some .u32 | "u64" => some .u64
   | "i8" => some .i8 | "i16" => some .i16 | "i32" => some .i32 | "i64" => some .i64
+  -- Go defined types over the same underlying integers (the model has one type per layout)
+  | "nu8" => some .u8 | "ni16" => some .i16 | "nu32" => some .u32 | "ni64" => some .i64
   | _ => none
 
 mutual
